@@ -246,6 +246,12 @@ func serveAndSync(c *execdrv.Chain, A, C *node.Node, ht *height) bool {
 			fmt.Sprintf("height %d: the syncing node took height %d from another peer and stored version %s of its commit certificate; the served block's header embeds version %s (same payload, another +2/3 signer set); the served block (bytes equal to the certified block) is handled as %q, expected %q", ht.h, ht.h-1, storedPrev, ht.prevCert, got, want),
 			map[string]any{"case": o.CurCase(), "height": ht.h, "served_by": c.Names[A], "block": hex.EncodeToString(ht.p.Block), "stored_version": storedPrev, "embedded_version": ht.prevCert, "fresh_node_result": got})
 		return false
+	case !same && nonCanonicalTx(orig.Transactions) >= 0:
+		i := nonCanonicalTx(orig.Transactions)
+		o.Fail("C11:served-block-rejected:non-canonical-tx-bytes",
+			fmt.Sprintf("height %d: transaction %d of the committed block is not the canonical encoding of its content (same content, other bytes); the archive of %s serves the block with that transaction re-marshalled, so the served block is not the certified one; a fresh node handles it as %q, expected %q", ht.h, i, c.Names[A], got, want),
+			map[string]any{"case": o.CurCase(), "height": ht.h, "served_by": c.Names[A], "tx_index": i, "tx_bytes_certified": hex.EncodeToString(orig.Transactions[i]), "witness": witness, "fresh_node_result": got})
+		return false
 	case traffic != "" && (!same || strings.HasPrefix(got, "err:")):
 		o.Fail("C11:served-block-rejected:after-blocks-page-query",
 			fmt.Sprintf("height %d: node %s answered read-only explorer queries (%s) and then served this height; the served block (bytes equal to the certified block: %v) is handled by a fresh node as %q, expected %q", ht.h, c.Names[A], traffic, same, got, want),
@@ -493,6 +499,16 @@ func corpusCheckpointHeight(o *drv.Out) {
 	o.Sample(fmt.Sprintf("checkpoint-height: heights 1..%d proposed, validated, committed and replayed on a fresh node; the checkpoint of height 100 is the block's final hash", last))
 }
 
+// nonCanonicalTx: index of the first transaction whose bytes are not the canonical encoding (-1: none).
+func nonCanonicalTx(txs [][]byte) int {
+	for i, tx := range txs {
+		if !node.IsCanonicalTx(tx) {
+			return i
+		}
+	}
+	return -1
+}
+
 // explorerBeforeServe: when set, serveAndSync lets the serving node answer these read-only explorer
 // queries right before it answers the block request; returns a short description of them.
 var explorerBeforeServe func(c *execdrv.Chain, A *node.Node, h uint64) string
@@ -666,9 +682,10 @@ func corpusLastCertVersion(o *drv.Out) {
 // changing its content (explicit zero `nonce` field appended: 0x50 0x00; `created_height` repeated
 // as a padded varint). If such bytes are accepted into a block, the archive re-marshals the
 // transaction canonically, the served block has another transaction root and a fresh node cannot
-// sync past it.
+// sync past it. The permuted variants keep the LENGTH of the canonical encoding (top-level fields
+// written in another order: network_id and chain_id swapped, all fields reversed, first field last).
 func corpusNonCanonical(o *drv.Out) {
-	for vi, variant := range []string{"explicit-zero-nonce", "repeated-created-height"} {
+	for vi, variant := range []string{"explicit-zero-nonce", "repeated-created-height", "permuted:swap-last-two", "permuted:reverse", "permuted:rotate"} {
 		o.Case("corpus-noncanonical-tx-" + variant)
 		rng := rand.New(rand.NewSource(44))
 		net := node.NewNetwork(11+int64(vi), 4, nil, 20)
@@ -686,6 +703,10 @@ func corpusNonCanonical(o *drv.Out) {
 				raw := node.ReencodeExplicitZeroNonce(canon)
 				if variant == "repeated-created-height" {
 					raw = node.ReencodeRepeatedCreatedHeight(canon, h)
+				}
+				if strings.HasPrefix(variant, "permuted:") {
+					// same content, same length, fields in another order
+					raw = node.ReencodePermuted(canon, strings.TrimPrefix(variant, "permuted:"))
 				}
 				txs = append(txs, node.MixTx{Kind: "noncanon:" + variant, Bytes: raw})
 				o.Extra["c11_noncanonical_"+variant] = map[string]string{"canonical": hex.EncodeToString(canon), "reencoded": hex.EncodeToString(raw)}
